@@ -759,13 +759,16 @@ def run_sides(cases_, model_ok, tmo=1700):
     os.makedirs(vlib.WORK, exist_ok=True)
     d = tempfile.mkdtemp(prefix="c06-", dir=vlib.WORK)
     try:
-        impl = vlib.run_lines(vlib.VHARN, ["fn"], lines, timeout=tmo, env={"VHARN_STORE_DIR": d, "VHARN_STORE_FLUSH": "0"})
+        # an unfiltered QUERY scans the whole memtable of a shard, so the cost per process is quadratic in its
+        # number of cases: many short-lived processes (run_lines caps them at one per 50 cases)
+        impl = vlib.run_lines(vlib.VHARN, ["fn"], lines, timeout=tmo, shards=96,
+                              env={"VHARN_STORE_DIR": d, "VHARN_STORE_FLUSH": "0"})
         shutil.rmtree(d, ignore_errors=True)
         os.makedirs(d, exist_ok=True)
         # the flushing pass writes a segment every 4 events: in large runs it covers an evenly spread subset
         stride = max(1, -(-len(lines) // 60000))
         idx = list(range(0, len(lines), stride))
-        sub = vlib.run_lines(vlib.VHARN, ["fn"], [lines[i] for i in idx], timeout=tmo,
+        sub = vlib.run_lines(vlib.VHARN, ["fn"], [lines[i] for i in idx], timeout=tmo, shards=32,
                              env={"VHARN_STORE_DIR": d, "VHARN_STORE_FLUSH": "1"})
         fl = list(impl)
         for i, o in zip(idx, sub):
